@@ -17,7 +17,7 @@ theorem lrun_header (env : Env) (st : List Byte) (hlen : st.length = 512) (hs : 
   refine ⟨(((((({ (((Mach.init st).setReg 6 ctxW).setReg 1 (sext32 0)) with
       stack := writeStack (fun _ => none) 508 (toLE 0 4) } : Mach).setReg 2 stackW).setReg 2
       (stackW + sext32 (-4))).setReg 1 (mapHandle env.c.stateMapFD)).clobber).setReg 0 stateW).setReg 9 stateW, ?_, ?_⟩
-  · exact { r6 := rfl, r9 := rfl, r10 := rfl, regsLen := rfl, stEq := rfl, stLen := hlen }
+  · exact { r6 := rfl, r9 := rfl, r10 := rfl, regsLen := rfl, sim := StSim.refl st hlen, stLen := hlen }
   · simp only [headerEvs, mov64, movImm64, storeStack32, addImm64, call, jumpEqImm64, mk, mkJ, R0, R1, R2, R6, R9, R10,
       offStateKey, List.cons_append, List.nil_append, List.append_assoc]
     rw [lrun_label]
@@ -206,7 +206,7 @@ theorem footer_deny (env : Env) (st : List Byte) (m : Mach) (xdp : Bool) (hI : I
     hI.r6 hI.r9 hI.regsLen
   simp only [Bool.false_eq_true, if_false] at hrun
   have hrc : (getBytes (writeAt m.st 92 (toLE (vWord policyDeny).toNat 4)) 92 4).map leNat = some 2 := by
-    rw [rc_after_store m.st _ (by rw [hI.stEq]; exact hI.stLen)]
+    rw [rc_after_store m.st _ hI.sim.len]
     rfl
   by_cases ht : env.tailOK = true
   · rw [ht] at hrun
@@ -247,7 +247,7 @@ theorem footer_allow (env : Env) (st : List Byte) (m : Mach) (xdp : Bool) (hI : 
     [movImm32 R1 policyTailCallFailed, store32 R9 R1 stateOffPolResult, movImm64 R0 (if xdp then 1 else 2), exitI]
     hI.r6 hI.r9 hI.regsLen
   simp only [if_true] at hrun
-  have hlen : m.st.length = 512 := by rw [hI.stEq]; exact hI.stLen
+  have hlen : m.st.length = 512 := hI.sim.len
   have hrc : (getBytes (writeAt m.st 92 (toLE (vWord policyAllow).toNat 4)) 92 4).map leNat = some 1 := by
     rw [rc_after_store m.st _ hlen]
     rfl
